@@ -700,7 +700,10 @@ func (sys *System) GetCachedLocations(ctx *Context) []string {
 }
 
 func (sys *System) ensureStorage(ctx *Context) (Storage, error) {
-	// Assumes we have the sys lock
+	// Nobody gave us the sys lock, so we get it here.  Otherwise
+	// two first requests can each create a storage.
+	sys.Lock()
+	defer sys.Unlock()
 	if sys.storage != nil {
 		return sys.storage, nil
 	}
